@@ -318,7 +318,6 @@ class HWorld:
     """Real objects of one history.  ``last`` is the result of the last operation."""
 
     def __init__(self, variant, seed):
-        import pfhedge.instruments as I  # noqa: F401
         self.variant = variant
         self.seed = seed
         self.prims, self.derivs, self.sims = [], [], []
@@ -335,6 +334,7 @@ class HWorld:
         self.last = None
         self.trace = []
         self.dirty = False
+        self.failed = False
 
     # -- abstract state ---------------------------------------------------------
     def param_dtype(self):
@@ -350,6 +350,8 @@ class HWorld:
         return self.data_dtype(i) is not None
 
     def canon(self):
+        if self.failed:
+            return ("failed", tuple(self.trace), str(self.last))
         ds = []
         for i, p in enumerate(self.prims):
             bufs = tuple((n, tuple(b.shape), NAME.get(b.dtype, str(b.dtype))) for n, b in p.named_buffers())
@@ -402,6 +404,8 @@ class HWorld:
 
     # -- operations ---------------------------------------------------------------
     def enabled(self, op):
+        if self.failed:
+            return False
         kind = op[0]
         if kind in ("sim", "dto"):
             return True
@@ -559,10 +563,34 @@ def operations(variant, tier="thorough"):
     return ops
 
 
+class Raised(str):
+    """Result of an operation that raised inside pfhedge (the reference model defines a value for
+    every enabled operation, so this is compared like a value and reported)."""
+
+
+def safe_apply(w, op, observe=False):
+    """apply(), but an exception raised inside pfhedge becomes a Raised value."""
+    from mc.core.runner import blame
+    try:
+        return w.apply(op, observe=observe)
+    except Exception as e:
+        if blame(e) is None:
+            raise
+        w.post = snap_prims(w.prims) if observe else None
+        w.last = Raised(f"{type(e).__name__}: {str(e)[:200]}")
+        w.failed = True
+        return w.last
+
+
 def build(variant, seed, history):
+    """Fresh world with the history replayed.  Only the last operation may raise inside pfhedge
+    (recorded as a Raised result; such a world is not expanded further)."""
     w = HWorld(variant, seed)
     for k, op in enumerate(history):
-        w.apply(tuple(op), observe=(k == len(history) - 1))
+        if k == len(history) - 1:
+            safe_apply(w, tuple(op), observe=True)
+        else:
+            w.apply(tuple(op), observe=False)
     return w
 
 
